@@ -1,4 +1,5 @@
 import CookModel.Analysis.Collector
+import CookModel.Lemmas.Blocks
 /-
   C14  Metadata-only parsing agrees with full parsing.
 
@@ -69,5 +70,66 @@ theorem C14_front_matter_same_event (cs : CharSpec) (ext : Ext) (input : List Ch
     (pullMetaEvents (α := α) cs ext input).2 = none := by
   unfold pullMetaEvents
   simp [h]
+
+/-- `meta_blocks_eq`, for EVERY token list and with NO side condition: the sequence of token slices
+    the metadata-only scanner (`next_metadata_block`) hands to `metadata_entry` is exactly the
+    sequence of those blocks of the full splitter (`next_block`) whose first token is `>>`, in the
+    same order.  (A `>>` at the start of a line is always its own single-line block in the full
+    splitter; `>>` after leading whitespace, after an escaped newline or inside a line is in neither
+    list; a `>>` line directly after a step line ends that step's block; the last line needs no
+    newline.) -/
+theorem C14_meta_blocks_eq (ts : List Tok) :
+    metaBlocks (ts.length + 1) .newline ts =
+    (allBlocks (ts.length + 1) ts).filter (fun b => b.head?.map (·.kind) == some .metaStart) := by
+  have h := blocks_meta_eq ts.length ts (Nat.le_refl _)
+  unfold metaBlocksOf at h
+  rw [h]
+  apply List.filter_congr
+  intro b _
+  unfold isMetaBlock
+  cases b.head? with
+  | none => rfl
+  | some t => simp
+
+/-- hence every block of the full splitter that starts with `>>` is one line without its newline:
+    `parse_block` sees the same tokens for a metadata entry as `next_metadata_block` gives -/
+theorem C14_full_splitter_meta_block_is_line (ts : List Tok) :
+    ∀ b ∈ allBlocks (ts.length + 1) ts, b.head?.map (·.kind) = some .metaStart →
+      (∀ t ∈ b, t.kind ≠ .newline) ∧ b ∈ metaBlocks (ts.length + 1) .newline ts := by
+  intro b hb hh
+  have hm : b ∈ metaBlocks (ts.length + 1) .newline ts := by
+    rw [C14_meta_blocks_eq]
+    exact List.mem_filter.2 ⟨hb, by simp [hh]⟩
+  exact ⟨(C14_meta_blocks_are_meta_lines _ _ _ b hm).2, hm⟩
+
+/-- without front matter the metadata-only parser runs `metadata_entry` over exactly the `>>`
+    blocks of the full splitter on the same token stream -/
+theorem C14_meta_scanner_runs_on_full_blocks (cs : CharSpec) (ext : Ext) (input : List Char)
+    (h : parseFrontmatter cs input = none) :
+    pullMetaEvents (α := α) cs ext input =
+      (((allBlocks ((lex cs input).length + 1) (lex cs input)).filter
+          (fun b => b.head?.map (·.kind) == some .metaStart)).foldl
+        (fun acc b => runMetaBlock cs ext b acc.1 acc.2) (#[], none)) := by
+  unfold pullMetaEvents
+  simp only [h]
+  rw [C14_meta_blocks_eq]
+
+/-! the corner cases, on concrete streams (both sides computed):
+    leading whitespace before `>>` (not metadata in either scanner); a `>>` line right after a
+    step line without a blank line; a `>>` after an escaped newline (an `escaped` token is not a
+    newline token); a last `>>` line without trailing newline -/
+example :
+    let ts : List Tok := [⟨.ws, [' '], 0⟩, ⟨.metaStart, ['>', '>'], 1⟩, ⟨.word, ['a'], 3⟩, ⟨.newline, ['\n'], 4⟩,
+      ⟨.word, ['s'], 5⟩, ⟨.newline, ['\n'], 6⟩,
+      ⟨.metaStart, ['>', '>'], 7⟩, ⟨.word, ['k'], 9⟩, ⟨.newline, ['\n'], 10⟩,
+      ⟨.word, ['b'], 11⟩, ⟨.escaped, ['\\', '\n'], 12⟩, ⟨.metaStart, ['>', '>'], 14⟩, ⟨.newline, ['\n'], 16⟩,
+      ⟨.metaStart, ['>', '>'], 17⟩, ⟨.word, ['z'], 19⟩]
+    metaBlocks (ts.length + 1) .newline ts =
+      [[⟨.metaStart, ['>', '>'], 7⟩, ⟨.word, ['k'], 9⟩], [⟨.metaStart, ['>', '>'], 17⟩, ⟨.word, ['z'], 19⟩]] ∧
+    allBlocks (ts.length + 1) ts =
+      [[⟨.ws, [' '], 0⟩, ⟨.metaStart, ['>', '>'], 1⟩, ⟨.word, ['a'], 3⟩, ⟨.newline, ['\n'], 4⟩, ⟨.word, ['s'], 5⟩],
+       [⟨.metaStart, ['>', '>'], 7⟩, ⟨.word, ['k'], 9⟩],
+       [⟨.word, ['b'], 11⟩, ⟨.escaped, ['\\', '\n'], 12⟩, ⟨.metaStart, ['>', '>'], 14⟩],
+       [⟨.metaStart, ['>', '>'], 17⟩, ⟨.word, ['z'], 19⟩]] := by decide
 
 end Cook
